@@ -16,8 +16,10 @@ def seed():
 
 
 def fast_tmp():
-    """A per-invocation work directory on tmpfs when available (images are small)."""
-    base = "/dev/shm" if os.access("/dev/shm", os.W_OK) else SCRATCH
+    """A per-invocation work directory.  Not under /dev/shm by default: the repository's own test m_devdir builds an
+    image from /dev and is skipped when /dev/shm holds more than a few MB, so scratch data there would disturb the suite.
+    (VERIF_FAST_TMP=/dev/shm may be set for speed during development.)"""
+    base = os.environ.get("VERIF_FAST_TMP", SCRATCH)
     os.makedirs(base + "/verif-work", exist_ok=True)
     return tempfile.mkdtemp(prefix="w", dir=base + "/verif-work")
 
